@@ -231,6 +231,41 @@ func runC03(c *ctx) {
 		}
 		env.Stop()
 	}
+	// ---- (a2) byte-identical rows: each delivered row is its own value
+	for g := 0; g < 4*c.scale; g++ {
+		cfg := bs.DefaultBloomSearchEngineConfig()
+		cfg.RowDataCompression = pick(r, []bs.CompressionType{bs.CompressionNone, bs.CompressionSnappy})
+		env := NewEnv(cfg)
+		var batch []map[string]any
+		for i := 0; i < 2+r.IntN(4); i++ {
+			batch = append(batch, map[string]any{"msg": "same line", "n": map[string]any{"k": []any{"v", 1}}})
+			if r.Chance(0.3) {
+				batch = append(batch, map[string]any{"msg": "other", "i": i})
+			}
+		}
+		env.IngestWait(batch)
+		out := env.Query(&bs.Query{})
+		var snaps []string
+		for _, row := range out.Rows {
+			k, _ := json.Marshal(row)
+			snaps = append(snaps, string(k))
+		}
+		c.r.Case(true, fmt.Sprint("identical-rows", g, len(batch)))
+		c.r.Hit("c03.identical-rows")
+		for i := range out.Rows {
+			deepMutate(out.Rows[i])
+			out.Rows[i]["added-by-caller"] = i
+			for j := i + 1; j < len(out.Rows); j++ {
+				k, _ := json.Marshal(out.Rows[j])
+				if string(k) != snaps[j] {
+					c.r.Add(Finding{Kind: "violation", Check: "row-aliasing", Detail: fmt.Sprintf("mutating returned row %d changed returned row %d of the same result (byte-identical stored rows share one value): %s -> %s", i, j, trunc(snaps[j], 120), trunc(string(k), 120)), Replay: map[string]any{"rows": len(batch), "seed": c.seed}})
+					i = len(out.Rows)
+					break
+				}
+			}
+		}
+		env.Stop()
+	}
 	// ---- (b) independence under concurrency with a poisoned pool
 	bs.VerifSetPoison(true)
 	defer bs.VerifSetPoison(false)
